@@ -1,4 +1,5 @@
 import Proofs.MgrSpec
+import PikoModel.Generated.Facts
 /-!
 # C05 — Advertised upstream counts equal the upstreams actually registered
 
@@ -61,6 +62,14 @@ would panic on `LocalNode()` / index a nil map entry otherwise) -/
 theorem C05_no_panic_state (id proxy admin : String) (ops : List Op) (e : String) :
     ∀ lb, (reach id proxy admin ops).lbs.find e = some lb → lb.ups ≠ [] ∧ lb.Inv :=
   fun lb h => (inv_reach id proxy admin ops).lbs e lb h
+
+/-- The atomicity the model assumes, as a regenerated fact: `AddConn`/`RemoveConn` update the
+cluster-local count and (through the subscriber) the gossip entry **while holding the manager
+mutex** - the lock-order extractor sees `manager.mu → cluster.mu` and `manager.mu → gossip.mu`.
+If a change moves those calls outside the critical section this stops building. -/
+theorem C05_facts_atomic :
+    ∃ es, Facts.lockEdges = some es ∧ ("manager.mu", "cluster.mu") ∈ es ∧ ("manager.mu", "gossip.mu") ∈ es := by
+  decide
 
 /-- non-vacuity: the D1 history on a concrete node; the second removal is absent and the
 sibling stays advertised with count 1 -/
